@@ -81,7 +81,7 @@ def C06(tier):
     if tier == 'thorough':
         jobs += [
             bjob('barrier.n2.k2.r6', src, ['t0', 't1'], 6, ['-DVN=2', '-DROUNDS=2'], timeout=14000, mem_gb=16),
-            bjob('barrier.n3.k1.r3', src, ['t0', 't1', 't2'], 3, ['-DVN=3', '-DROUNDS=1'], timeout=14000, mem_gb=16),
+            bjob('barrier.n3.k1.r4', src, ['t0', 't1', 't2'], 4, ['-DVN=3', '-DROUNDS=1'], timeout=14000, mem_gb=16),
             bjob('barrier.n2.k1.r4.all', src, ['t0', 't1'], 4, ['-DVN=2', '-DROUNDS=1'], preempt='all', timeout=14000, mem_gb=16),
         ]
     return dict(jobs=jobs, assumptions=MODEL_ASSUMPTIONS,
@@ -352,4 +352,39 @@ def C13(tier):
     return dict(jobs=jobs, assumptions=RICH_ASSUME,
                 functions=['myth_tryjoin_body', 'myth_detach_body', 'myth_join_body', 'myth_create_ex_body', 'myth_entry_point_cleanup', 'myth_entry_point_1', 'myth_entry_point_2', 'free_myth_thread_struct_desc', 'free_myth_thread_struct_stack'])
 
-SPECS = {'C04': C04, 'C20': C20, 'C01': C01, 'C13': C13, 'C03': C03, 'C02': C02, 'C16': C16, 'C12': C12, 'C17': C17, 'C15': C15, 'C11': C11, 'C10': C10, 'C05': C05, 'C06': C06, 'C07': C07, 'C08': C08, 'C09': C09, 'C14': C14}
+def C18(tier):
+    src = 'harness/C18_step.c'; rc = ['dr_malloc:stub_dr_malloc', 'dr_free:stub_dr_free']
+    jobs = [ajob('dr.leaf_step', src, ['-DSCEN=1'], unwind=8, timeout=600, bounds=dict(step='dr_end_interval_ on an arbitrary interval: all clocks, kinds, edge kinds, workers'))]
+    def shapes(k, task):
+        codes = [0, 1, 2] if task else [0, 1, 2, 3, 4]
+        out = [[]]
+        for _ in range(k - 1): out = [o + [c] for o in out for c in codes]
+        return out
+    if tier == 'quick':
+        sel = [(1, 0, []), (1, 1, []), (2, 0, [3]), (2, 0, [4]), (2, 1, [2]), (3, 0, [4, 2]), (3, 0, [3, 4]), (3, 1, [2, 0])]
+    else:
+        sel = [(k, t, sh) for k in (1, 2, 3) for t in (0, 1) for sh in shapes(k, t)] + [(4, 0, [4, 2, 3]), (4, 0, [0, 4, 4]), (4, 1, [2, 1, 2])]
+    for k, t, sh in sel:
+        code = sum(c << (4 * i) for i, c in enumerate(sh))
+        jobs.append(ajob('dr.close_step.%s.%s' % ('task' if t else 'section', ''.join(map(str, sh)) or 'x'), src, ['-DSCEN=0', '-DK_=%d' % k, '-DTASK=%d' % t, '-DSHAPE=0x%x' % code, '-DMETHOD=2'], unwind=k + 6, timeout=1500, replace_calls=rc,
+                         bounds=dict(step='dr_summarize_section_or_task on a %s with %d parts of kinds %s + closing interval (0 other, 1 contracted section, 2 section holding a leaf, 3 create + contracted task, 4 create + task holding a leaf); all totals of the parts (t_1 < 2^60, counts < 2^30), workers and every contraction option symbolic' % ('task' if t else 'section', k, sh))))
+    # whole executions through the public entry points; case split on the worker assignment (base-2 digits of WPAT)
+    rce = ['dr_malloc:stub_dr_malloc', 'dr_free:stub_dr_free', 'dr_dag_node_freelist_add_page:stub_add_page', 'dr_get_tsc:stub_tsc', 'dr_free_dag:stub_free_dag']
+    progs = [(0, 0, 4), (0, 1, 4)] + ([(2, 0, 7)] if tier == 'thorough' else [])
+    for prog, order, nch in progs:
+        for pat in range(2 ** nch):
+            j = ajob('dr.e2e.p%d.o%d.w%s' % (prog, order, format(pat, '0%db' % nch)), 'harness/C18_e2e.c', ['-DPROG=%d' % prog, '-DORDER=%d' % order, '-DNW=2', '-DWPAT=%d' % pat, '-DNNODES=12'],
+                     unwind=6, extra=['--unwindset', 'main.0:13,main.1:4'], timeout=900, replace_calls=rce,
+                     bounds=dict(program=['root{create A{}; wait}', None, 'root{create A{}; wait; create B{}; wait}'][prog], call_order=['child first', 'parent continues while the child runs on another worker'][order],
+                                 workers='2 workers; worker of every task segment = binary digit of %s (all %d assignments are run)' % (format(pat, '0%db' % nch), 2 ** nch),
+                                 clock='arbitrary non-decreasing readings (increments < 2^40)', options='collapse_max_count, uncollapse_min, collapse_max symbolic; node_count_target = 0'))
+            j.group = 'dr.e2e.p%d.o%d' % (prog, order); jobs.append(j)
+    return dict(jobs=jobs, assumptions=A_ASSUME + ['inductive argument: leaf step (an interval\'s totals are its own length/kind) + closing step (a section or task gets exactly the serial-sum / max-over-created-children combination of its parts\' totals, whatever the contraction options do) give "totals = totals of the uncontracted sequence" for every well-nested execution by induction on nesting depth; the parts\' own totals are arbitrary (induction hypothesis) subject to t_inf <= t_1',
+                'dr_malloc/dr_free (scratch memory of the dr_free_dag traversal) are replaced by typed static pools; pool exhaustion is reported as an unwinding failure, never assumed away',
+                'shape of one step bounded: <= 3 parts per section (4 in three thorough shapes), sub-sections/created tasks either contracted or holding one leaf; which worker ran what is symbolic (worker ids -1..3)',
+                'whole-execution queries (dr.e2e.*): a serial simulator calls the real entry points for a fixed small program; dr_get_tsc is a stub (arbitrary non-decreasing clock); worker state comes from the real fixed-array lookup over a static array with pre-filled node free lists (running dry is reported as undecided); dr_free_dag is replaced by its effect on the graph there (the real traversal runs in the step queries); the oracle is computed from the simulator\'s own clock readings with the closed formula of the program\'s DAG',
+                'report generation (gen_stat.c) and the .dag/.stat files are outside this claim (C19 territory: not applicable)'],
+                functions=['dr_start_task__', 'dr_enter_create_task__', 'dr_return_from_create_task__', 'dr_enter_wait_tasks__', 'dr_return_from_wait_tasks__', 'dr_enter_other__', 'dr_return_from_other__', 'dr_end_task__', 'dr_end_interval_', 'dr_summarize_section_or_task', 'dr_accumulate_stats', 'dr_collapse_subgraph', 'dr_free_dag', 'dr_dag_node_free', 'dr_dag_node_stack_push_children', 'dr_prune_nodes_norec', 'dr_prune_nodes', 'dr_cur_nodes_below', 'dr_min_nodes_below', 'dr_get_logical_node_counts'])
+
+
+SPECS = {'C18': C18, 'C04': C04, 'C20': C20, 'C01': C01, 'C13': C13, 'C03': C03, 'C02': C02, 'C16': C16, 'C12': C12, 'C17': C17, 'C15': C15, 'C11': C11, 'C10': C10, 'C05': C05, 'C06': C06, 'C07': C07, 'C08': C08, 'C09': C09, 'C14': C14}
